@@ -393,8 +393,29 @@ class Scenario:
         self.pending_calls = []
         self.pending_dgrams = []
 
-    def deliver(self, recs, ifidx=2, v4=True, compress=True, flags=0x8400):
+    def deliver(self, recs, ifidx=2, v4=None, compress=True, flags=0x8400):
+        if v4 is None:
+            # now and then over IPv6 (interface 2 has an IPv6 address, interface 3 has none: dropped)
+            v4 = self.rng.random() >= 0.12
         self.pending_dgrams.append(dg(packet(recs, flags=flags, compress=compress), ifidx, v4))
+
+    def noise(self, recs):
+        """Datagrams the daemon must ignore: a query carrying the records as known answers, a
+        response on an interface the daemon does not have, a truncated response."""
+        k = self.rng.choice(["query", "unknown-if", "truncated", "v6-on-v4-only"])
+        if k == "query":
+            p = dnsgen.Packet()
+            p.question(TY1, 12)
+            for sec, name, ty, cls, ttl, rd in recs:
+                p.rr(1, name, ty, cls & 0x7FFF, ttl, rd)
+            self.pending_dgrams.append(dg(p.finish(flags=0).hex(), 2, True))
+        elif k == "unknown-if":
+            self.pending_dgrams.append(dg(packet(recs), 9, True))
+        elif k == "truncated":
+            h = packet(recs)
+            self.pending_dgrams.append(dg(h[:max(24, (len(h) // 4) * 2)], 2, True))
+        else:
+            self.pending_dgrams.append(dg(packet(recs), 3, False))
 
     def advance(self, dt, exact=None):
         """Flush the current iteration, then move the clock by dt (timer-exact run or a jump)."""
@@ -449,7 +470,7 @@ def gen_lifecycle(rng, hid, special=None):
     for _ in range(nact):
         s = rng.choice(svcs)
         act = rng.choice(["announce", "announce", "refresh", "port", "txt", "addr", "bye", "bye-part", "foreign",
-                          "notforus", "verify", "silence", "dup-if", "stop", "announce-split"])
+                          "notforus", "verify", "silence", "dup-if", "stop", "announce-split", "noise"])
         npk = 0
         if act in ("announce", "announce-split") or (s.inst[0] not in announced and act in ("refresh", "port", "txt")):
             announced.add(s.inst[0])
@@ -485,6 +506,8 @@ def gen_lifecycle(rng, hid, special=None):
             announced.discard(s.inst[0])
         elif act == "bye-part":
             sc.deliver(s.recs(rng.choice(["P", "S", "A", "SA", "T"]), ttl0=True), s.ifidx)
+        elif act == "noise":
+            sc.noise(s.recs(rng.choice(["PSTA", "SA", "P"]), ttl0=rng.random() < 0.3))
         elif act == "foreign":
             sc.deliver(foreign_recs(rng) + (s.recs("A") if rng.random() < 0.3 else []), s.ifidx)
         elif act == "notforus":
